@@ -31,8 +31,14 @@ pub const MAX_INTRA_SWITCHES: u64 = 3000;
 /// threads the library spawns itself from inside a call are adopted by the scheduler (up to this many per run);
 /// in switch lists they are numbered HELPER_BASE + k (k = order of creation), so that a list stays valid when the
 /// minimiser drops or merges caller threads
-pub const MAX_HELPERS: usize = 8;
+pub const MAX_HELPERS: usize = 24;
 pub const HELPER_BASE: u32 = 1000;
+/// a thread that has run this many ticks without a decision while somebody it might be spinning on is parked (a
+/// caller in the middle of a call, a library thread) reaches a decision point that prefers the others: code that
+/// busy-waits without a system call (std's channels do, briefly) must not hang a run
+pub const SPIN_GUARD: u64 = 300_000;
+/// pseudo futex "addresses" (below any mapped page): 1 = a sleep, JOIN_BASE + k = waiting for adopted thread k to end
+const JOIN_BASE: usize = 16;
 
 /// per-call cap on ticks inside a simulated run (pool entries need far fewer: see oracle::isolated_tick_cap)
 pub fn call_step_cap() -> u64 {
@@ -225,6 +231,11 @@ struct St {
     /// number of caller threads (indices 0..nc); indices nc..nc+MAX_HELPERS are adopted library threads
     nc: usize,
     helpers: usize,
+    /// pthread_t of each adopted thread (for pthread_join)
+    helper_pt: Vec<usize>,
+    /// the last few baton holders, most recent last (scripted schedules: "back to whoever ran before")
+    recent: Vec<usize>,
+    joins: u64,
     rescued: u64,
     in_call: Vec<Option<u32>>,
     cur_call: Vec<u32>,
@@ -295,6 +306,10 @@ pub fn cap_exceeded(mode: u8) -> ! {
     if mode == tick::MODE_ISO {
         proc::item_finish(b"cap")
     }
+    if std::env::var("SC_DEBUG_BT").is_ok() {
+        let bt = std::backtrace::Backtrace::force_capture();
+        let _ = std::fs::write("/root/scratch/cap_bt.txt", format!("{}", bt));
+    }
     finish_inconclusive("call_step_cap")
 }
 
@@ -314,7 +329,8 @@ pub fn slow_tick(c: &TickCtx, site: usize) {
         } else {
             site
         };
-        let wake = sh.decision(c.me.get(), c.call_no.get(), c.ticks.get(), Kind::Tick(site), c);
+        let guard = !before && !after && c.ticks.get().saturating_sub(c.synced.get()) >= SPIN_GUARD;
+        let wake = sh.decision(c.me.get(), c.call_no.get(), c.ticks.get(), if guard { Kind::Yield } else { Kind::Tick(site) }, c);
         if before {
             // the access executes now; a second decision point follows shortly after it: on the very next tick, or
             // a few (up to a few hundred) ticks later - far enough to leave the critical section the access was
@@ -465,11 +481,43 @@ pub fn adopt_begin() -> Option<usize> {
     .flatten()
 }
 
+/// pthread_join issued inside the library on an adopted thread: wait, as a scheduling decision, until that thread
+/// has left its start routine (the real join that follows then returns at once). glibc waits for the kernel's
+/// exit notification with a system call of its own, which the simulator cannot see: without this the joiner
+/// would sleep in the kernel holding the baton.
+pub fn intercept_join(pt: usize) {
+    let _ = T.try_with(|c| {
+        if c.mode.get() != tick::MODE_SIM || !c.in_call.get() || c.in_hook.get() {
+            return;
+        }
+        let sh = match shared() {
+            Some(s) => s,
+            None => return,
+        };
+        c.in_hook.set(true);
+        let target = {
+            let mut st = sh.m.lock().unwrap();
+            // (a pthread_t is reused once its thread has been joined: look for the live one)
+            let k = (0..st.helpers).find(|k| st.helper_pt[*k] == pt && !st.done[st.nc + *k]);
+            if k.is_some() {
+                st.joins += 1;
+            }
+            k
+        };
+        if let Some(k) = target {
+            sh.block_on(c, JOIN_BASE + k, 0, None);
+        }
+        c.in_hook.set(false);
+    });
+}
+
 /// the creating thread (holding the baton) waits until the new thread is parked in the scheduler
-pub fn adopt_end(id: usize, created: bool) {
+pub fn adopt_end(id: usize, created: bool, pt: usize) {
     if let Some(sh) = shared() {
         let mut st = sh.m.lock().unwrap();
         if created {
+            let k = id - st.nc;
+            st.helper_pt[k] = pt;
             while !st.ready[id] {
                 st = sh.adopt_cv.wait(st).unwrap();
             }
@@ -596,6 +644,9 @@ impl St {
             return stay;
         }
         match &spec.policy {
+            // (a yield under a scripted schedule: follow the list if it has an entry here, else let somebody else run -
+            // staying would spin forever on whatever the yielding thread is waiting for)
+            Policy::Replay if kind == Kind::Yield => self.decide_replay(spec, me, pos, true).or(stay),
             Policy::Replay => self.decide_replay(spec, me, pos, must_leave),
             Policy::Serial => {
                 if must_leave {
@@ -711,7 +762,13 @@ impl St {
             return Some(w);
         }
         if must_leave {
-            (0..n).find(|i| *i != me && self.eligible(*i))
+            // not in the list (a scripted schedule, or a candidate of the minimiser): a thread that blocks inside the
+            // library is most likely waiting for one of the library's own threads; a library thread that goes idle
+            // gives the baton back to whoever ran before it; otherwise the lowest runnable index
+            (self.nc..n)
+                .find(|i| *i != me && self.eligible(*i))
+                .or_else(|| self.recent.iter().rev().find(|i| **i != me && self.eligible(**i)).copied())
+                .or_else(|| (0..n).find(|i| *i != me && self.eligible(*i)))
         } else {
             Some(me)
         }
@@ -720,6 +777,16 @@ impl St {
     /// After a decision that lets `me` continue at tick `t` of call `call_no`: the tick at which `me` must
     /// enter the scheduler again (u64::MAX: not before the call ends).
     fn compute_wake(&mut self, spec: &RunSpec, me: usize, call_no: u32, t: u64) -> u64 {
+        let w = self.compute_wake_policy(spec, me, call_no, t);
+        let spin_target = (0..self.done.len()).any(|i| i != me && !self.done[i] && (self.in_call[i].is_some() || i >= self.nc));
+        if spin_target {
+            w.min(t.saturating_add(SPIN_GUARD))
+        } else {
+            w
+        }
+    }
+
+    fn compute_wake_policy(&mut self, spec: &RunSpec, me: usize, call_no: u32, t: u64) -> u64 {
         // bound the cost of a run: after this many context switches a PRNG-driven run only switches between calls
         if self.switches > MAX_INTRA_SWITCHES && spec.policy != Policy::Replay {
             return u64::MAX;
@@ -784,6 +851,16 @@ impl Shared {
         if kind == Kind::Exit {
             st.done[me] = true;
             st.in_call[me] = None;
+            if me >= self.n {
+                // whoever is joining this library thread can go on
+                let tag = JOIN_BASE + (me - self.n);
+                for i in 0..st.blocked.len() {
+                    if st.blocked[i] == Some(tag) {
+                        st.blocked[i] = None;
+                        st.deadline[i] = None;
+                    }
+                }
+            }
             if me < self.n && st.done[..self.n].iter().all(|d| *d) {
                 // the last caller is finished: the run is over, whatever the library's own threads are doing
                 st.exit_join = Some((me, None));
@@ -805,6 +882,10 @@ impl Shared {
                 st.log.u64(((me as u64) << 40) | nx as u64);
                 st.log.u64(((call_no as u64) << 32) | tick32 as u64);
                 st.switches += 1;
+                if st.recent.len() >= 16 {
+                    st.recent.remove(0);
+                }
+                st.recent.push(me);
                 let (em, en) = (st.enc(me), st.enc(nx));
                 st.rec.push(Sw { thread: em, call: call_no, tick: tick32, to: en });
                 let to_site = st.parked_site[nx];
@@ -1095,7 +1176,7 @@ impl Shared {
             "sens": st.sens_calls,
             "pf": self.spec.policy.family(),
             "pn": self.spec.policy.name(),
-            "nt": self.n, "hl": st.helpers, "tmo": st.timeouts, "slp": st.sleeps, "yld": st.yields,
+            "nt": self.n, "hl": st.helpers, "jn": st.joins, "tmo": st.timeouts, "slp": st.sleeps, "yld": st.yields,
             "mi": st.max_inflight,
         });
         if let Some(x) = violation {
@@ -1251,6 +1332,9 @@ pub fn run_child(pool: &Pool, spec: &RunSpec) -> ! {
         yields: 0,
         nc: n,
         helpers: 0,
+        helper_pt: vec![0; MAX_HELPERS],
+        recent: Vec::with_capacity(16),
+        joins: 0,
         rescued: 0,
         in_call: vec![None; cap],
         cur_call: vec![0; cap],
